@@ -1,14 +1,121 @@
 (* Property C09 — a LogQL result does not depend on which engine ran each pipeline stage.
-   Only statements; proofs by reference to proofs/InternalEngineProofs.v. *)
-From Coq Require Import List ZArith NArith Bool String Ascii.
+   Only statements; proofs by reference to proofs/InternalEngineProofs.v.
+   Every theorem is stated for an arbitrary float type V with arbitrary operations, arbitrary
+   oracles (fingerprint, regexp, ParseFloat, json/logfmt decoding, template rendering) and both
+   ways a stage panic can end (panic_kills).  A channel is a list of batches; `List.concat bs`
+   is the sequence of entries whatever the batching.                                             *)
+From Coq Require Import List ZArith NArith Bool String Ascii Permutation Lia.
 From Qryn Require Import model.InternalEngine proofs.InternalEngineProofs.
 Import ListNotations.
 Open Scope Z_scope.
 
-(* line filter, label filter and comparison stages: whatever the batching of the upstream entries,
-   the entries sent are exactly those of the flat input that the stage's predicate keeps, in order *)
-Theorem batching_invariant_filter_stages :
-  forall (V : Type) (v0 : V) (kills : bool) (keep : entry V -> bool) (bs : list (list (entry V))),
-    List.concat (wrap V v0 kills (filter_ops V keep) [] bs) = filter keep (List.concat bs).
-Proof. intros. rewrite wrap_filter. apply concat_map_filter. Qed.
-Print Assumptions batching_invariant_filter_stages.
+Section C09.
+  Variable V : Type.
+  Variables (v0 v1 : V) (vadd vdiv : V -> V -> V) (vltb vleb veqb : V -> V -> bool) (vofZ : Z -> V).
+  Variable panic_kills : bool.
+  Variable fpf : lbls -> N.
+  Variable re_match : string -> string -> bool.
+  Variable pfloat : string -> option V.
+  Variable parse : N -> string -> option lbls.
+  Variable tmpl : N -> lbls -> option string.
+  Notation run_stage := (run_stage V v0 v1 vadd vdiv vltb vleb veqb vofZ panic_kills fpf re_match pfloat parse tmpl).
+  Notation sem_stage := (sem_stage V v0 v1 vadd vdiv vltb vleb veqb vofZ fpf re_match pfloat parse tmpl).
+
+  (* line filter, label filter, comparison: for every batching (empty batches, cuts inside a series)
+     the entries sent are those of the flat input the reference semantics keeps, in order *)
+  Theorem batching_invariant_line_filter : forall c op val bs,
+    List.concat (run_stage c (SLineFilter V op val) bs) = sem_stage c (SLineFilter V op val) (List.concat bs).
+  Proof. intros. cbn [InternalEngine.run_stage InternalEngine.sem_stage]. rewrite wrap_filter. apply concat_map_filter. Qed.
+
+  Theorem batching_invariant_label_filter : forall c f bs,
+    List.concat (run_stage c (SLabelFilter V f) bs) = sem_stage c (SLabelFilter V f) (List.concat bs).
+  Proof. intros. cbn [InternalEngine.run_stage InternalEngine.sem_stage]. rewrite wrap_filter. apply concat_map_filter. Qed.
+
+  Theorem batching_invariant_comparison : forall c op val bs,
+    List.concat (run_stage c (SComparison V op val) bs) = sem_stage c (SComparison V op val) (List.concat bs).
+  Proof. intros. cbn [InternalEngine.run_stage InternalEngine.sem_stage]. rewrite wrap_filter. apply concat_map_filter. Qed.
+
+  (* label_format, unwrap, drop, by/without: every entry is rewritten by the same function whatever the batching *)
+  Theorem batching_invariant_label_format : forall c fs bs,
+    List.concat (run_stage c (SLabelFormat V fs) bs) = map (label_format_g V fs) (List.concat bs).
+  Proof. intros. cbn [InternalEngine.run_stage]. rewrite (wrap_map_total V v0 panic_kills _ _ (label_format_total V fs)). apply concat_map_map. Qed.
+
+  Theorem batching_invariant_unwrap : forall c label bs,
+    List.concat (run_stage c (SUnwrap V label) bs) = map (unwrap_g V pfloat label) (List.concat bs).
+  Proof. intros. cbn [InternalEngine.run_stage]. rewrite (wrap_map_total V v0 panic_kills _ _ (unwrap_total V pfloat label)). apply concat_map_map. Qed.
+
+  Theorem batching_invariant_drop : forall c names vals bs,
+    List.concat (run_stage c (SDrop V names vals) bs) = map (drop_g V fpf names vals) (List.concat bs).
+  Proof. intros. cbn [InternalEngine.run_stage]. rewrite (wrap_map_total V v0 panic_kills _ _ (drop_total V fpf names vals)). apply concat_map_map. Qed.
+
+  Theorem batching_invariant_by_without : forall c by_ names bs,
+    List.concat (run_stage c (SByWithout V by_ names) bs) = map (by_without_g V fpf by_ names) (List.concat bs).
+  Proof. intros. cbn [InternalEngine.run_stage]. rewrite (wrap_map_total V v0 panic_kills _ _ (by_without_total V fpf by_ names)). apply concat_map_map. Qed.
+
+  (* line_format: an entry is rendered or dropped on its own, whatever the batching; this is the reference semantics
+     on entries that carry a label map *)
+  Theorem batching_invariant_line_format : forall c id bs,
+    List.concat (run_stage c (SLineFormat V id) bs) = flat_map (lf_one V tmpl id) (List.concat bs).
+  Proof. intros. cbn [InternalEngine.run_stage]. rewrite wrap_line_format. apply concat_map_flat_map. Qed.
+
+  (* json / logfmt: a line that does not decode fails the request (or kills the process) whatever the batching; otherwise
+     every entry is rewritten.  What the client experiences (crash / failure / result) is the same for every batching.     *)
+  Theorem batching_invariant_parser : forall c id bs, no_crash_in V bs ->
+    outcome_of V (run_stage c (SParser V id) bs) = outcome_of V (run_stage c (SParser V id) [List.concat bs]).
+  Proof.
+    intros c id bs H. cbn [InternalEngine.run_stage].
+    apply (map_stage_outcome V v0 panic_kills (parser_f V fpf parse id)); [apply parser_f_err|apply parser_f_fail|exact H].
+  Qed.
+
+  (* limit: the first `limit` entries of the flat input for every batching; 0 = no limit.  sem_limit is also what the
+     ClickHouse path does with ctx.Limit (no LIMIT clause for 0, LIMIT n otherwise): the parameter means the same thing
+     on both paths.                                                                                                       *)
+  Theorem limit_same_meaning : forall c bs, 0 <= c_limit c ->
+    List.concat (run_stage c (SLimit V) bs) = sem_limit V (c_limit c) (List.concat bs).
+  Proof.
+    intros c bs H. cbn [InternalEngine.run_stage]. unfold sem_limit.
+    destruct (Z.eqb_spec (c_limit c) 0) as [E|E].
+    - rewrite E. now rewrite wrap_limit_zero.
+    - rewrite (wrap_limit_pos V v0 panic_kills (c_limit c)) by lia. now rewrite Z.sub_0_r.
+  Qed.
+
+  (* range and vector aggregations (LRA, unwrap aggregations, sum/min/max/avg/count): the batches sent are literally the
+     same for every batching of the input, error and panic outcomes included                                              *)
+  Theorem batching_invariant_aggregation : forall c k dur bs,
+    run_stage c (SAgg V k dur) bs = run_stage c (SAgg V k dur) [List.concat bs].
+  Proof. intros. cbn [InternalEngine.run_stage]. apply wrap_end_only. intros s b. reflexivity. Qed.
+
+  (* response optimizer: a regrouping — the subsequence of every fingerprint is that of the input, for every batching
+     (the order between series is left open by the Go map iteration, and by this statement)                              *)
+  Theorem batching_invariant_optimizer : forall c bs f,
+    proj V f (List.concat (run_stage c (SOptimizer V) bs)) = proj V f (List.concat bs).
+  Proof. intros. cbn [InternalEngine.run_stage]. exact (wrap_optimizer V v0 panic_kills f bs [] 0 I eq_refl). Qed.
+End C09.
+
+Print Assumptions batching_invariant_line_filter.
+Print Assumptions batching_invariant_label_filter.
+Print Assumptions batching_invariant_comparison.
+Print Assumptions batching_invariant_label_format.
+Print Assumptions batching_invariant_unwrap.
+Print Assumptions batching_invariant_drop.
+Print Assumptions batching_invariant_by_without.
+Print Assumptions batching_invariant_line_format.
+Print Assumptions batching_invariant_parser.
+Print Assumptions limit_same_meaning.
+Print Assumptions batching_invariant_aggregation.
+Print Assumptions batching_invariant_optimizer.
+
+(* hash.go: the fingerprint does not depend on the order in which Go ranges over the label map *)
+Theorem fingerprint_order_independent : forall (ch64 : string -> N) (m1 m2 : lbls),
+  Permutation m1 m2 -> fingerprint ch64 m1 = fingerprint ch64 m2.
+Proof. exact fingerprint_perm. Qed.
+Print Assumptions fingerprint_order_independent.
+
+(* "distinct label sets stay distinct series" is FALSE of hash.go, for every hash function CH64 (injective or not): key
+   and value are joined without a separator *)
+Theorem distinct_labels_distinct_series_refuted :
+  exists m1 m2 : lbls, m1 <> m2 /\ forall ch64 : string -> N, fingerprint ch64 m1 = fingerprint ch64 m2.
+Proof.
+  exists [("a", "bc")]%string, [("ab", "c")]%string. split; [discriminate|exact hash_collision_witness].
+Qed.
+Print Assumptions distinct_labels_distinct_series_refuted.
